@@ -112,6 +112,7 @@ func stateNonNilAt(f *ssa.Function, in ssa.Instruction, fld *types.Var) bool {
 }
 
 func c18(c *Ctx) {
+	defer c18everyAttemptCounted(c)
 	P, R := c.P, c.R
 	R.Explain("R18.1", "guarded-by-login (T-DOM, inter-procedural): in internal/session every method call on Session.state (other than the nil-safe getters, derived: methods that begin with a receiver nil test) is dominated by the non-nil edge of a test of s.state in the same function or, failing that, at every static call site of the function up to 4 frames; closures inherit the guard that dominates their creation.")
 	R.Explain("R18.2", "T-WRITERS: Session.state is assigned only in handleLogin, from the result of Backend.GetState on its nil-error edge; State.user only in NewState; StateUserInterfaceImpl.u only in its constructor (a state can only reach the database/store/connector of the user it was created for).")
@@ -567,4 +568,48 @@ func sameRecv(v ssa.Value, f *ssa.Function) bool {
 		return false
 	}
 	return engine.AccessPath(v) == root.Params[0].Name()
+}
+
+// c18everyAttemptCounted (R18.6): no LOGIN is answered without the backend having seen it.
+func c18everyAttemptCounted(c *Ctx) {
+	P, R := c.P, c.R
+	R.Explain("R18.6", "every login attempt passes the jail: each return of Session.handleLogin is dominated by the call of Backend.GetState (which waits for the jail, counts the failure and arms the jail), except the refusal on the s.state != nil edge (already authenticated).  A failure answered by the session itself is neither delayed by the jail nor counted.")
+	f := c.fn("R18.6", "internal/session.(*Session).handleLogin")
+	if f == nil {
+		return
+	}
+	stateFld := c.fieldOf("internal/session", "Session", "state")
+	var gs ssa.Instruction
+	for _, cs := range engine.Calls(f) {
+		if sc := cs.Common().StaticCallee(); sc != nil && engine.ShortName(sc) == "GetState" && engine.RecvNamed(sc) != nil && engine.RecvNamed(sc).Obj().Name() == "Backend" {
+			gs = cs.Instr
+		}
+	}
+	if gs == nil {
+		R.Fail("R18.6", c.name(f)+"|calls-GetState", P.Pos(f.Pos()), "handleLogin does not call Backend.GetState")
+		return
+	}
+	n := 0
+	for _, ret := range engine.Returns(f) {
+		n++
+		ok := engine.InstrDominates(gs, ret)
+		if !ok {
+			// the already-authenticated refusal: dominated by the non-nil edge of s.state
+			for _, fact := range engine.FactsDominating(f, ret.Block(), P.IsOwn) {
+				bin, isBin := fact.Cond.(*ssa.BinOp)
+				if !isBin || !(engine.IsNilConst(bin.X) || engine.IsNilConst(bin.Y)) {
+					continue
+				}
+				other := bin.X
+				if engine.IsNilConst(bin.X) {
+					other = bin.Y
+				}
+				if ld, isLd := other.(*ssa.UnOp); isLd && fieldAddrIs(ld.X, stateFld) && (bin.Op == token.NEQ) == fact.Truth {
+					ok = true
+				}
+			}
+		}
+		R.Check(ok, "R18.6", c.name(f)+"|return", P.Pos(ret.Pos()), "the attempt went through Backend.GetState (or the session was already authenticated)", "handleLogin can answer a LOGIN without calling Backend.GetState: that attempt is not delayed by an active login jail and its failure is not counted towards the next one")
+	}
+	R.Min("R18.6", "returns of handleLogin", n, 2)
 }
